@@ -99,6 +99,8 @@ static void emit_store(struct cmd *c, const char *ret, const char *retval, int i
 	drv_dbg();
 	j_int("present", present);     /* paths of the universe that have a value ... */
 	j_int("as_s", as_s);           /* ... and how many of them mpt_config_get(.., 's') answers */
+	/* diagnostic only: does the first top-level node carry a (stale) prev link? */
+	j_int("headprev", (nodeGlobal && nodeGlobal->prev) ? 1 : 0);
 	drv_end();
 }
 
@@ -135,12 +137,14 @@ static void drv_step(struct cmd *c)
 	const char *a = c->action;
 
 	if (!strcmp(a, "init")) {
+		const char *braw = drv_raw(c, "base");
+		int hasview = braw && strcmp(braw, "0");     /* base=0: no view; base=- : view at the element "" */
 		char *base = arg_str(c, "base");
 		usep = (int) drv_int(c, "sep", '.');
 		po.sep = (char) usep;      /* the path object starts empty with the history's separator */
 		nuni = parse_list(drv_raw(c, "uni"), uni);
 		nrel = parse_list(drv_raw(c, "rel"), reluni);
-		if (base[0]) {
+		if (hasview) {
 			MPT_STRUCT(path) bp = MPT_PATH_INIT;
 			bp.sep = (char) usep;
 			mpt_path_set(&bp, base, -1);
